@@ -267,12 +267,16 @@ enum Style {
     Whole,
     /// the first / last returned term is narrowed to the chunks that overlap the requested range
     Trim,
+    /// like Whole, but every fetch range of a xorb is handed out under ONE url (the xorb's): the ranges differ in
+    /// `url_range` (the Range header) only, as the type's documentation allows
+    OneUrl,
 }
 impl Style {
     fn name(self) -> &'static str {
         match self {
             Style::Whole => "whole",
             Style::Trim => "trim",
+            Style::OneUrl => "one-url",
         }
     }
 }
@@ -377,7 +381,7 @@ fn alias_hex(xorbs: &[Xorb], x: u8, alias: u64) -> String {
     }
 }
 
-fn plan_json(xorbs: &[Xorb], p: &Planned, endpoint: &str, gen: u64, alias: u64, sabotage: u8) -> String {
+fn plan_json(xorbs: &[Xorb], p: &Planned, endpoint: &str, gen: u64, alias: u64, sabotage: u8, one_url: bool) -> String {
     let mut offset = p.offset;
     if sabotage == 1 && p.ranged && offset + 1 < p.terms[0].len as u64 {
         offset += 1;
@@ -393,7 +397,7 @@ fn plan_json(xorbs: &[Xorb], p: &Planned, endpoint: &str, gen: u64, alias: u64, 
                 let declared_start = if sabotage == 2 && f.0 >= 1 { f.0 - 1 } else { f.0 };
                 json!({
                     "range": {"start": declared_start, "end": f.1},
-                    "url": format!("{endpoint}/g{gen}/x{x}/{}-{}", f.0, f.1),
+                    "url": if one_url { format!("{endpoint}/g{gen}/x{x}/u") } else { format!("{endpoint}/g{gen}/x{x}/{}-{}", f.0, f.1) },
                     "url_range": {"start": xb.frame_off[f.0 as usize], "end": xb.frame_off[f.1 as usize] - 1},
                 })
             })
@@ -504,18 +508,24 @@ fn serve(server: tiny_http::Server, sh: Arc<Shared>, xorbs: Arc<Vec<Xorb>>, endp
                     respond(rq, 404, b"bad range".to_vec(), false);
                 },
                 Ok(req) => match plan(&xorbs, &file, req, style) {
-                    Ok(p) => respond(rq, 200, plan_json(&xorbs, &p, &endpoint, gen, alias, sabotage).into_bytes(), true),
+                    Ok(p) => respond(rq, 200, plan_json(&xorbs, &p, &endpoint, gen, alias, sabotage, style == Style::OneUrl).into_bytes(), true),
                     Err(()) => respond(rq, 416, b"range not satisfiable".to_vec(), false),
                 },
             }
         } else if let Some(rest) = url.strip_prefix("/g") {
-            // /g<gen>/x<xi>/<fs>-<fe>
+            // /g<gen>/x<xi>/<fs>-<fe>, or /g<gen>/x<xi>/u where the fetch range is given by the Range header alone
             let parsed = (|| {
                 let (g, rest) = rest.split_once("/x")?;
                 let (xi, fr) = rest.split_once('/')?;
-                let (fs, fe) = parse_pair(fr)?;
                 let (a, b) = parse_pair(range.as_deref()?.strip_prefix("bytes=")?)?;
-                Some((g.parse::<u64>().ok()?, xi.parse::<usize>().ok()?, fs as usize, fe as usize, a as usize, b as usize))
+                let xi = xi.parse::<usize>().ok()?;
+                let (fs, fe) = if fr == "u" {
+                    let fo = &xorbs.get(xi)?.frame_off;
+                    (fo.iter().position(|o| *o == a as usize)? as u64, fo.iter().position(|o| *o == b as usize + 1)? as u64)
+                } else {
+                    parse_pair(fr)?
+                };
+                Some((g.parse::<u64>().ok()?, xi, fs as usize, fe as usize, a as usize, b as usize))
             })();
             let mut st = sh.mu.lock().unwrap();
             match parsed {
@@ -1267,6 +1277,11 @@ impl Explorer {
                     styles.push(Style::Trim);
                 }
             }
+            if pw.fetch.iter().any(|(_, v)| v.len() >= 2) {
+                // two fetch ranges of one xorb: the same answer with one shared url per xorb
+                styles.push(Style::OneUrl);
+                self.out.count("vac:plans_with_two_fetch_ranges_under_one_url", 1);
+            }
             let (rs, re) = req.map(|(s, e)| (s as usize, (e as usize).min(len))).unwrap_or((0, len));
             let expect = file.bytes[rs..re].to_vec();
             for style in styles {
@@ -1692,7 +1707,11 @@ impl Explorer {
             s2.cache_on = cache == "on";
             let xorbs = self.eng.xorbs.clone();
             let hdr = filt["range"].as_array().map(|a| (a[0].as_u64().unwrap_or(0), a[1].as_u64().unwrap_or(1) - 1));
-            let style = if filt["server_style"].as_str() == Some("trim") { Style::Trim } else { Style::Whole };
+            let style = match filt["server_style"].as_str() {
+                Some("trim") => Style::Trim,
+                Some("one-url") => Style::OneUrl,
+                _ => Style::Whole,
+            };
             let Ok(p) = plan(&xorbs, &file, hdr, style) else { machinery_error("replay: range out of domain") };
             let mut ro: Vec<Key> = vec![];
             for k in chosen_keys(&p) {
@@ -1746,6 +1765,9 @@ fn count_mode(tier: Tier) {
                     if pt != pw {
                         plans.push(pt);
                     }
+                }
+                if pw.fetch.iter().any(|(_, v)| v.len() >= 2) {
+                    plans.push(pw.clone());
                 }
                 for p in plans {
                     let k: BTreeSet<Key> = chosen_keys(&p).into_iter().collect();
